@@ -19,8 +19,14 @@ INTS = [0, 1, 2, 3, -1, -2, 5, 4, 90, 360, 361, -360, 30, 400, 7, -90]
 
 
 # ---------------------------------------------------------------- encoding / realisation
+INT_TYPES = [int, np.int64, np.int32, np.int16, np.int8, np.uint8, np.uint64]
+FLOAT_TYPES = [float, np.float64, np.float32, np.float16, np.longdouble]
+
+
 def enc(t):
     k = t[0]
+    if k == "OBJ":            # the same value handed over as an ndarray of dtype object: the model sees the nesting
+        return enc(t[1])
     if k in ("N", "T", "F", "BT", "BF", "C", "O", "NAN"):
         return k
     if k in ("I", "FL"):
@@ -44,10 +50,16 @@ def to_py(t, rng):
         return k == "T"
     if k in ("BT", "BF"):
         return np.bool_(k == "BT")
+    if k == "OBJ":
+        return np.array(to_py(t[1], rng), dtype=object)
     if k == "I":
-        return rng.choice([int, int, np.int64, np.int32])(t[1])
+        if len(t) > 2:        # forced scalar type
+            return INT_TYPES[t[2]](t[1])
+        return rng.choice([int, int, np.int64, np.int32] + ([np.uint8, np.int16] if 0 <= t[1] < 100 else []))(t[1])
     if k == "FL":
-        return rng.choice([float, float, np.float64, np.float32])(t[1])
+        if len(t) > 2:
+            return FLOAT_TYPES[t[2]](t[1])
+        return rng.choice([float, float, np.float64, np.float32, np.float16, np.longdouble])(t[1])
     if k == "NAN":
         return rng.choice([float("nan"), np.nan, np.float64("nan"), np.float32("nan")])
     if k == "C":
@@ -75,10 +87,12 @@ def to_py(t, rng):
 
 def show(t):
     k = t[0]
+    if k == "OBJ":
+        return "ndarray(dtype=object) of " + show(t[1])
     if k == "I":
-        return str(t[1])
+        return str(t[1]) + (f" as {INT_TYPES[t[2]].__name__}" if len(t) > 2 else "")
     if k == "FL":
-        return f"{t[1]}.0"
+        return f"{t[1]}.0" + (f" as {FLOAT_TYPES[t[2]].__name__}" if len(t) > 2 else "")
     if k == "S":
         return repr(t[1])
     if k == "R":
@@ -276,13 +290,13 @@ def gen_for(rng, cmd):
     if head == "handedness":
         return rng.choice([("S", "right"), ("S", "left"), ("S", rng.choice(STRINGS)), leaf(rng, 0.3), L(("S", "right")), anyval(rng, 1)])
     if head == "start":
-        return rng.choice([I(rng.randint(-3, 5)), FL(rng.randint(-3, 5)), ("S", "auto"), ("S", rng.choice(STRINGS + ["Auto", "auto "])), leaf(rng, 0.2), anyval(rng, 1)])
+        return rng.choice([I(rng.randint(-3, 5)), FL(rng.randint(-3, 5)), ("S", "auto"), ("S", rng.choice(STRINGS + ["Auto", "auto_"])), leaf(rng, 0.2), anyval(rng, 1)])
     if head == "degrees":
         return rng.choice([("T",), ("F",), ("BT",), ("BF",), I(0), I(1), leaf(rng, 0.2), anyval(rng, 1)])
     if head == "field":
-        return rng.choice([("S", rng.choice("BHMJ")), ("S", rng.choice(["b", "BH", "", "x", "B ", "MJ"] + STRINGS)), leaf(rng, 0.2), L(("S", "B")), anyval(rng, 1)])
+        return rng.choice([("S", rng.choice("BHMJ")), ("S", rng.choice(["b", "BH", "", "x", "B_", "MJ"] + STRINGS)), leaf(rng, 0.2), L(("S", "B")), anyval(rng, 1)])
     if head == "output":
-        return rng.choice([("S", "ndarray"), ("S", "dataframe"), ("S", rng.choice(["Ndarray", "array", "", "dataframe "] + STRINGS)), leaf(rng, 0.2), L(("S", "ndarray")), anyval(rng, 1)])
+        return rng.choice([("S", "ndarray"), ("S", "dataframe"), ("S", rng.choice(["Ndarray", "array", "", "dataframe_"] + STRINGS)), leaf(rng, 0.2), L(("S", "ndarray")), anyval(rng, 1)])
     if head == "anchor":
         return rng.choice([I(0), FL(0), ("F",), ("T",), I(1), ("N",), leaf(rng, 0.3), shaped(rng, ROWS + [[3]] * 4), shaped(rng, ROWS + [[3]] * 4), ("A", [0, 3], [])])
     if head == "angle":
@@ -353,6 +367,56 @@ def commands():
              "vector 2 0 1 3 0 0 0 0", "vector 2 0 1 -1 2 0 0 0", "vector 2 0 1 -1 0 1 0 0", "vector 1 2 2 0 1 0 0"]
     cmds += [f"attr {c} {a}" for c, a in TABLE_ATTRS]
     return cmds
+
+
+SCALARISH = ("scalar", "start", "degrees", "angle", "anchor", "attr BaseCurrent current", "attr Circle diameter", "attr Sphere diameter")
+ARRAYISH = ("vector", "vector2", "vertices", "cylseg", "pixel", "triangle", "tetrahedron", "position", "anchor", "angle", "axis", "attr")
+
+
+def typed_scalars():
+    """every numeric scalar type numpy offers, for the validators of scalar arguments (and inside a vector)"""
+    out = []
+    for n in (0, 1, 2, -1, 45):
+        out += [("I", n, k) for k, ty in enumerate(INT_TYPES) if n >= 0 or not ty.__name__.startswith("uint")]
+        out += [("FL", n, k) for k in range(len(FLOAT_TYPES))]
+    return out
+
+
+def is_arrayish(cmd):
+    p = cmd.split()
+    return p[0] in ARRAYISH and not (p[0] == "attr" and p[2] in ("current", "diameter"))
+
+
+def pure_rect(t):
+    """shape of a rectangular nesting of lists and scalar leaves (no ndarray, no Rotation inside), else None"""
+    if t[0] in ("A", "R", "OBJ"):
+        return None
+    if t[0] != "L":
+        return ()
+    shapes = [pure_rect(x) for x in t[1]]
+    if any(sh is None for sh in shapes) or len(set(shapes)) > 1:
+        return None
+    return (len(shapes),) + (shapes[0] if shapes else ())
+
+
+def has_none(t):
+    return t[0] == "N" or (t[0] == "L" and any(has_none(x) for x in t[1]))
+
+
+def object_ok(cmd, t):
+    """may the value be handed over as an object-dtype ndarray?  (the model treats it like the nesting; None rows are separators only
+    inside lists / tuples given to check_format_input_vertices)"""
+    if not is_arrayish(cmd) or t[0] != "L" or pure_rect(t) is None:
+        return False
+    return not (has_none(t) and ("vertices" in cmd))
+
+
+def object_edge_values():
+    vs = [nums(1, 2, 3), nums(1, 2), nums(1, -2, 3), L(nums(1, 2, 3)), L(nums(1, 2, 3), nums(4, 5, 6)), L(nums(0, 0, 0), nums(1, 0, 0), nums(0, 1, 0)),
+          L(nums(0, 0, 0), nums(1, 0, 0), nums(0, 1, 0), nums(0, 0, 1)), nums(1, 2, 1, 0, 90), L(I(1), ("N",), I(3)), L(I(1), ("S", "2"), I(3)),
+          L(I(1), ("C",), I(3)), L(I(1), ("T",), I(3)), L(FL(1), NAN, I(3)), ("L", []), L(L(nums(1, 2, 3), nums(4, 5, 6))), L(NONE3, nums(1, 2, 3)),
+          L(L(nums(0, 0, 0), nums(1, 0, 0), nums(0, 1, 0))), nums(0, 0, 0), nums(45, 90)]
+    return [("OBJ", v) for v in vs] + [("OBJ", ("A", [], [2])), ("OBJ", ("A", [3], [1, 2, 3])), ("OBJ", ("A", [0], [])), ("OBJ", ("A", [0, 3], []))]
 
 
 # ---------------------------------------------------------------- the real side
@@ -486,12 +550,24 @@ def run_stream(ctx, n):
     for cmd in cmds:          # fixed boundary values x every command
         for v in edge_values():
             cases.append((cmd, v))
+    for cmd in cmds:          # every numpy scalar type x every validator of a scalar argument; a typed entry inside a vector elsewhere
+        if cmd.startswith(SCALARISH):
+            cases += [(cmd, v) for v in typed_scalars()]
+        elif is_arrayish(cmd):
+            cases += [(cmd, L(I(1), v, I(3))) for v in typed_scalars()[::3]]
+    for cmd in cmds:          # object-dtype ndarrays (also 0-d and empty ones) x every validator of an array argument
+        if is_arrayish(cmd):
+            cases += [(cmd, v) for v in object_edge_values() if not (has_none(v[1]) and "vertices" in cmd)]
     n_edge = len(cases)
     for _ in range(n):        # random values matched to a random command
         cmd = random_vector_cmd(rng) if rng.random() < 0.12 else rng.choice(cmds)
-        cases.append((cmd, gen_for(rng, cmd) if rng.random() < 0.9 else anyval(rng)))
+        v = gen_for(rng, cmd) if rng.random() < 0.9 else anyval(rng)
+        if rng.random() < 0.15 and object_ok(cmd, v):
+            v = ("OBJ", v)
+        cases.append((cmd, v))
     out = run_driver([f"valid {cmd} {enc(v)}" for cmd, v in cases])
-    stats = {"cases": len(cases), "edge_cases": n_edge, "random_cases": n, "accepted": 0, "rejected_bad": 0, "foreign_agreed": 0,
+    stats = {"cases": len(cases), "edge_cases": n_edge, "random_cases": n, "object_dtype_cases": sum(1 for _, v in cases if v[0] == "OBJ"),
+             "typed_scalar_cases": sum(1 for _, v in cases if len(v) > 2 and v[0] in ("I", "FL")), "accepted": 0, "rejected_bad": 0, "foreign_agreed": 0,
              "disagreements": 0, "state_changes": 0, "per_validator": {}, "foreign_inputs": []}
     seen = set()
     for i, (cmd, v) in enumerate(cases):
@@ -512,7 +588,7 @@ def run_stream(ctx, n):
             stats["foreign_agreed"] += 1
             if len(stats["foreign_inputs"]) < 8 and (name, real) not in {(a, b) for a, b, _ in stats["foreign_inputs"]}:
                 stats["foreign_inputs"].append((name, real, show(v)))
-        seen.add((name, model, enc(v)) if real.startswith("ok") else (name, model, v[0], len(v[1]) if v[0] == "L" else 0))
+        seen.add((name, model, enc(v)) if real.startswith("ok") else (name, model, v[0], len(v[1]) if v[0] in ("L", "OBJ") else 0))
         if note:
             stats["state_changes"] += 1
         if real != model or note:
